@@ -71,6 +71,11 @@ def _marksx_spec():
         "strong": {**s["marks"]["strong"], "excludes": "em"},
         "code": {**s["marks"]["code"], "excludes": "_"},
         "hl": {"attrs": {"c": {"default": "y"}}, "excludes": ""},
+        # asymmetric exclusions (hi excludes sm, lock excludes hi) and a second non-inclusive mark
+        "sm": {},
+        "hi": {"excludes": "sm"},
+        "lock": {"excludes": "hi"},
+        "cm": {"inclusive": False, "excludes": ""},
     }
     nodes = dict(s["nodes"])
     nodes["heading"] = {**nodes["heading"], "marks": "em strong"}
@@ -138,6 +143,8 @@ def from_json(S, js):
 
 # ---------------------------------------------------------------- random valid documents
 def canonical_mark_subsets(O, parent, rnd, kmax=2):
+    if len(O.marks) > 5:
+        kmax = 3
     names = [m for m in O.marks if O.allows(parent, m)]
     rnd.shuffle(names)
     cur = []
@@ -310,6 +317,9 @@ def corpus_json(name):
             _n("doc", p(_t("a", "em"), _t("b", "strong"), _t("c", "code"))),
             _n("doc", p(_t("a", "em", "hl"), _t("b", ["hl", {"c": "r"}], ["hl", {"c": "y"}]))),
             _n("doc", _n("heading", _t("h", "em")), p(_t("p", "link"))),
+            _n("doc", p(_t("ab", ["link", {"href": "foo"}], "cm"), _t("cd"))),
+            _n("doc", p(_t("ab", "sm", "lock"), _t("cd", "sm"), _t("e")), p(_t("f", "lock"))),
+            _n("doc", p(_t("x", "cm"), _t("y", "em", "cm"), _t("z", ["link", {"href": "foo"}], "cm"))),
         ]
     return docs
 
